@@ -26,6 +26,15 @@ fn gen_plan(rng: &mut Rng, with_faults: bool, glyph_only: bool) -> RunPlan {
     if rng.chance(1, 4) {
         defs.push(Def::all());
     }
+    // format-1 maps whose feature records push the entry count beyond 255 while the glyph map stays below it
+    // (entry indices one byte wide in the glyph map, two bytes wide in the feature map)
+    if rng.chance(1, 10) && w.roots[0].map(|r| w.versions[r].table_format == 1 && !w.versions[r].entries.is_empty()).unwrap_or(false) {
+        widen_format1(&mut w, rng);
+        let tag = *rng.pick(&[*b"c2sc", *b"dlig", *b"kern", *b"liga", *b"smcp"]);
+        let mut d = world::gen_def(rng, w.n_glyphs);
+        d.features = Some(vec![tag]);
+        defs.insert(0, d);
+    }
     let probes: Vec<Def> = (0..rng.below(3)).map(|_| world::gen_def(rng, w.n_glyphs)).collect();
     let faults = if with_faults { sim::gen_faults(rng, 4) } else { vec![] };
     RunPlan { world: w, defs, probes, faults, hash_seed: rng.next_u64() | 1, atomic_persist: !with_faults || rng.chance(3, 4) }
